@@ -41,12 +41,16 @@ RULE += ' Overlap scenarios: a stronger literal rule whose only occurrence in th
 RULE += ' Bookkeeping calls between inputs (clear_audit_log, get_statistics, export_antibodies, get_audit_log).'
 RULE += ' Relaxation scenarios may let 1100 or 5000 other inputs pass between the block and the relaxation (bounded memories).'
 RULE += ' Round 7: a `decoy` (pbt/props/_decoys.py): a second object of the class, differently configured and put through a misleading script (same prompts / names / ids, opposite verdicts and limits), is built in the same process after the object under test.'
+RULE += " Round 8: custom / learnt rules whose text contains compatibility characters (numero sign, fi ligature, superscript two, full-width letters): a rule's own literal instance must match it."
+RULE += " Round 8: the crowd between a block and its relaxation may consist of thousands of distinct *blocked* inputs (each carries an instance of the active rule)."
 EXHAUSTIVE_NOTE = {"quick": "every built-in signature/pattern instance (22 membrane + 18 innate) x 4 renderings (plain, upper-cased, embedded, embedded after 300 characters) x every threshold (4 / 5): 680 cases, complete for that table; relaxation table: 5 literal rules x 3 thresholds x 4 ways of relaxing a learnt rule = 60 histories; overlap table: every multi-word built-in instance x 3 ways a stronger literal rule overlaps it x custom/learnt",
                    "thorough": "same table, complete"}
 
 BENIGN = ["hello", "please", "summarise", "the", "report", "for", "monday", "thanks", "42", "ok", "forbidden", "Forbidden fruit"]
 SEPS = [" ", "\n", ". ", " - ", "\t"]
-LIT = ["secret sauce", "drop table", "launch codes", "rm -rf", "wire money"]
+# (the last four contain compatibility characters - a numero sign, a ligature, a superscript, full-width letters: a scanner that normalises the
+# input but not its rules, or the reverse, no longer finds a rule's own literal text)
+LIT = ["secret sauce", "drop table", "launch codes", "rm -rf", "wire money", "\u2116 5 override", "\ufb01le dump", "x\u00b2 bypass", "\uff52\uff4f\uff4f\uff54 shell"]
 REGEX = [r"x{2,4}y", r"(foo|bar)\s+baz", r"pw[0-9]{1,3}", r"k[aeiou]+t", r"tok_.*_end", r"[a-c]{3}-[0-9]"]
 HOSTILE = ["\ud800", "\udfff", "\x00", "\x07", "​", "‮", "[" * 50000, "9" * 5000, "q" * 100500, '{"a":' * 12 + "1" + "}" * 12, '{"k": 1}']
 _MEM_INST = None
@@ -166,7 +170,7 @@ def _membrane_case(draw):
         text = draw(st.sampled_from(BENIGN)) + " " + _swap(inst, draw(st.integers(0, 3))) + " " + draw(st.sampled_from(BENIGN))
         relax = draw(st.sampled_from([[["forget", pat]], [["threshold", 3]], [["learn", pat, 1]], [["forget", pat], ["threshold", 3]], [["import", [[pat, 1]]]]]))
         # sometimes thousands of other inputs pass through the membrane between the block and the relaxation (bounded memories, eviction)
-        crowd = [["bulk", draw(st.sampled_from([1100, 5000]))]] if draw(st.integers(0, 5)) == 0 else []
+        crowd = [["bulk", draw(st.sampled_from([1100, 5000]))] + draw(st.sampled_from([[], [text]]))] if draw(st.integers(0, 5)) == 0 else []
         ops = ops[:draw(st.integers(0, 3))] + [["learn", pat, draw(st.integers(2, 3))], ["filter", text]] + crowd + relax + [["refilter", 0], ["filter", text]]
     elif draw(st.integers(0, 6)) == 0:
         # overlap scenario: a stronger rule whose only occurrence in the input overlaps (shares its start with, or starts inside) the match of
@@ -248,6 +252,8 @@ def enumerate_cases(tier):
                 if thr == 2 and lit == LIT[0]:
                     yield {"kind": "membrane", "threshold": thr, "adaptive": True, "rate": None, "custom": [],
                            "ops": [["learn", [False, lit], 3], ["filter", text], ["bulk", 5000]] + relax + [["refilter", 0]]}
+                    yield {"kind": "membrane", "threshold": thr, "adaptive": True, "rate": None, "custom": [],
+                           "ops": [["learn", [False, lit], 3], ["filter", text], ["bulk", 5000, text]] + relax + [["refilter", 0]]}
     for inst in mem:
         for text in (inst, _swap(inst, 1), "hello please " + inst + " . thanks", "the report for monday please summarise thanks ok " * 6 + inst + " ok"):
             for thr in range(4):
@@ -363,7 +369,9 @@ def _membrane(case, out, clock, mod):
                 from operon_ai.core.types import Signal as _Signal
                 out.label("bulk")
                 for k_ in range(op[1]):
-                    m.filter(_Signal(content="benign request number %d about the monday report" % k_))      # only there to fill memories; not judged
+                    # only there to fill memories; not judged.  With a third element every input of the crowd carries that text (an instance of an
+                    # active rule): thousands of *distinct blocked* inputs between a block and its relaxation
+                    m.filter(_Signal(content=("benign request number %d about the monday report" % k_) if len(op) < 3 else "%s variation %d" % (op[2], k_)))
                 continue
         except Exception as e:
             out.fail("raise:%s:%s" % (type(e).__name__, name), "%s raised %s: %s" % (name, type(e).__name__, e), {"step": i, "op": op})
